@@ -100,6 +100,9 @@ func mutateLeaf(r *rand.Rand, v gen.Val) gen.Val {
 		return gen.Num(v.N + 1)
 	case "float":
 		f := math.Float64frombits(v.Bits)
+		if f == 0 {
+			return gen.Float(-f) // the other zero: a distinct constant (other bits, other hash, other print)
+		}
 		switch r.Intn(4) {
 		case 0:
 			return gen.Float(-f) // 0.0 and -0.0 are distinct constants
